@@ -184,6 +184,67 @@ def start_server(directory):
     return srv, srv.server_address[1]
 
 
+def big_document(n_lines=10240, width=128):
+    """an N-Triples document whose every line is exactly `width` bytes (newline included): a line break falls on every multiple of
+    `width`, in particular on every power-of-two block boundary up to the size of the document (> 1 MiB)"""
+    T = []
+    lines = []
+    for i in range(n_lines):
+        s = "<http://example.org/n%06d>" % (i // 2)
+        if i % 2 == 0:
+            head = "%s <%s> <http://example.org/Big%d> ." % (s, M.RDF_TYPE, i % 3)
+            pad = width - 1 - len(head)
+            line = "%s <%s> <http://example.org/Big%d>%s." % (s, M.RDF_TYPE, i % 3, " " * (pad + 1))
+            T.append((("IRI", s[1:-1]), M.RDF_TYPE, ("IRI", "http://example.org/Big%d" % (i % 3))))
+        else:
+            fixed = len('%s <http://example.org/p> "" .' % s)
+            lex = ("v%d" % i).ljust(width - 1 - fixed, "x")
+            line = '%s <http://example.org/p> "%s" .' % (s, lex)
+            T.append((("IRI", s[1:-1]), "http://example.org/p", (M.XSD_STRING, lex)))
+        assert len(line) == width - 1, (len(line), line)
+        lines.append(line)
+    return "\n".join(lines) + "\n", T
+
+
+def _read_big(payload):
+    """reads the big document through a yielder-level channel twice (the two passes) and returns the sorted reads"""
+    from shexer.utils.factories.triple_yielders_factory import get_triple_yielder
+    def once():
+        y = get_triple_yielder(**payload["kwargs"])
+        return sorted(["|".join([str(getattr(s, "elem_type", "?")), str(s), str(p), str(getattr(o, "elem_type", "?")),
+                                 str(o) if getattr(o, "elem_type", "") in ("IRI", "BNode") else ""]) for s, p, o in y.yield_triples()])
+    st, v, exc, frame = runner.call_guarded(lambda: (once(), once()), timeout=300)
+    if st != "ok":
+        return {"id": payload["id"], "status": st, "exc": exc, "frame": frame, "sorted1": [], "sorted2": []}
+    return {"id": payload["id"], "status": "ok", "exc": "", "frame": "", "sorted1": v[0], "sorted2": v[1]}
+
+
+def big_document_traces(sc, rnd, tier):
+    text, T = big_document(10240 if tier == "quick" else 40960)
+    expected = sorted("|".join([s[0], s[1], p, o[0], o[1] if o[0] in ("IRI", "BNode") else ""]) for s, p, o in T)
+    payloads = []
+    for comp in (None, "gz", "xz", "zip"):
+        if comp == "zip":
+            pth = sc.path("nt.zip")
+            half = text[: (len(text) // 256) * 128]
+            with zipfile.ZipFile(pth, "w") as z:
+                z.writestr("a.nt", half)
+                z.writestr("b.nt", text[len(half):])
+        else:
+            pth = write_file(sc, text, "nt", comp)
+        payloads.append({"id": "big.%s" % (comp or "plain"), "how": "nt/file/%s" % (comp or "plain"),
+                         "kwargs": {"source_file": pth, "input_format": "nt", "compression_mode": comp}})
+    results = runner.run_many(_read_big, payloads, procs=4, chunk=1)
+    traces = []
+    for p, r_ in zip(payloads, results):
+        if r_.get("status") == "harness-error":
+            raise common.Machinery("harness error: %s\n%s" % (r_.get("exc"), r_.get("trace", "")))
+        blank = {"graph": [], "cfg": runner.tla_cfg(runner.default_cfg()), "status": "ok", "parse": "ok", "shapes": []}
+        traces.append({"id": p["id"], "rel": "bigbag", "how": p["how"], "prop": "C08",
+                       "a": dict(blank, sorted=expected), "b": dict(blank, status=r_["status"], sorted1=r_["sorted1"], sorted2=r_["sorted2"]), "c": blank})
+    return traces
+
+
 def _run_delivery(payload):
     """payload: {id, case, kwargs}; returns run result + what each pass read (hook pass.triple)"""
     from shexer.shaper import Shaper
@@ -228,6 +289,7 @@ def check_c08(out, tier):
     sc = Scratch()
     srv, port = start_server(sc.dir)
     try:
+        big_traces = big_document_traces(sc, rnd, tier)
         payloads, meta = [], {}
         for i in range(26 * k):
             bn = rnd.random() < .35
@@ -259,7 +321,7 @@ def check_c08(out, tier):
         if r_.get("status") == "harness-error":
             raise common.Machinery("harness error: %s\n%s" % (r_.get("exc"), r_.get("trace", "")))
         by[p["id"]] = r_
-    traces = []
+    traces = big_traces
     for pid, (base, d) in meta.items():
         a = relations.run_block(base, by[base["id"] + ".ref"])
         b = relations.run_block(base, by[pid])
@@ -274,6 +336,11 @@ def check_c08(out, tier):
     chan = {}
     for t in traces:
         v = verdicts[t["id"]]
+        if t["rel"] == "bigbag":
+            out.nontrivial.add(t["id"])
+            out.judge_clauses(v["clauses"], {"delivery": t["how"], "big": True}, mine, detail="large aligned document, %s" % t["how"])
+            chan["big/" + t["how"]] = 1
+            continue
         base, d = meta[t["id"]]
         key = "%s/%s%s" % (d["fmt"], d["carrier"], "/" + d["comp"] if d["comp"] else "")
         chan[key] = chan.get(key, 0) + 1
